@@ -134,7 +134,7 @@ def collect(ctx, n_ir, n_sig):
 
 def run(ctx):
     status = coqbuild.prove("C02", THEOREMS)
-    agg, items, sig_bad, work = collect(ctx, 40 if ctx.quick else 600, 300 if ctx.quick else 5000)
+    agg, items, sig_bad, work = collect(ctx, 40 if ctx.quick else 1800, 300 if ctx.quick else 15000)
     for cls, det, ir in items:
         ctx.item(cls, {"stage": "emit -> source -> parse on the implementation", "clause": cls.split("/", 3)[-1],
                        "input": T.jsonable(ir) if ir else None, "detail": det})
